@@ -167,10 +167,26 @@ where
             });
             match stopped {
                 Some(site) => {
-                    with(|rt| {
+                    // the thread is parked BEFORE the call: the fault plan may make it fail
+                    // (`sys.<call>`: eio / enospc / eacces), be interrupted (eintr) or, for
+                    // write(2), accept only part of the buffer (short)
+                    let inj = with(|rt| {
                         rt.probe("blocking-closure-yielded-at-fs-call");
                         rt.evv("blocking-yield", site);
+                        if site == "start" || site == "stat" {
+                            None
+                        } else {
+                            rt.probe(match site {
+                                "write" => "closure-syscall-write",
+                                "open-for-write" => "closure-syscall-open-for-write",
+                                _ => "closure-syscall-other",
+                            });
+                            rt.fault(&format!("sys.{}", site))
+                        }
                     });
+                    if let Some(k) = inj {
+                        wk.handoff.inject.store(worker::inject_code(&k), std::sync::atomic::Ordering::SeqCst);
+                    }
                     cx.waker().wake_by_ref();
                     std::task::Poll::Pending
                 }
